@@ -339,3 +339,59 @@ func natLess(a, b string) bool {
 }
 
 func isDigit(c byte) bool { return c >= '0' && c <= '9' }
+
+// Import runs the rules of another property and takes over the obligations of one of its rules under a rule of this
+// report: the same structural condition is a necessary condition of both properties. constructFilter (optional) keeps
+// only the constructs containing one of the given substrings.
+var importCache = map[string]*Report{}
+
+func (r *Report) Import(s *Sem, fromProp, fromRule, asRule, text string, min int, constructFilter ...string) {
+	if importing > 0 {
+		return // imports do not nest
+	}
+	rule := r.Rule(asRule, text+" [same obligations as "+fromProp+"."+fromRule+"]", min)
+	src := importCache[fromProp]
+	if src == nil {
+		src = newReport(fromProp, r.Tier, r.P)
+		func() {
+			defer func() {
+				if e := recover(); e != nil {
+					src.Rule("R0", "the checker itself must not crash", 0)
+					src.Undecided("R0", "checker-panic", "-", fmt.Sprint(e))
+				}
+			}()
+			importing++
+			defer func() { importing-- }()
+			registry[fromProp](src, s)
+		}()
+		importCache[fromProp] = src
+	}
+	full := fromProp + "." + fromRule
+	n := 0
+	for _, o := range src.Obs {
+		if o.Rule != full && o.Rule != fromProp+".R0" {
+			continue
+		}
+		keep := len(constructFilter) == 0 || o.Rule == fromProp+".R0"
+		for _, f := range constructFilter {
+			if strings.Contains(o.Construct, f) {
+				keep = true
+			}
+		}
+		if !keep {
+			continue
+		}
+		n++
+		r.add(rule, o.Construct, o.Pos, o.Status, o.Detail, o.Guarded)
+	}
+	// the source rule's own vacuity floor
+	if ri := src.ruleIdx[full]; ri != nil && len(constructFilter) == 0 && ri.n < ri.Min {
+		r.Undecided(rule, "rule-instances of "+full, "-", fmt.Sprintf("the imported rule matched %d instance(s), fewer than its floor %d", ri.n, ri.Min))
+	}
+	if n == 0 {
+		r.Undecided(rule, "imported rule "+full, "-", "no obligation to import: the anchors of the source rule no longer resolve")
+	}
+}
+
+// importing > 0 while a property's rules run on behalf of another property (imports do not nest).
+var importing int
